@@ -57,7 +57,7 @@ impl From<Cell> for CellSpec {
     }
 }
 
-#[derive(Clone, Debug, Hash, Eq, PartialEq, Copy)]
+#[derive(Clone, Debug, Hash, Eq, PartialEq, Copy, Ord, PartialOrd)]
 pub(crate) struct ForwardRefRequirement {
     ancestor_height: ScopeDepth,
     ref_idx: usize,
@@ -260,11 +260,13 @@ impl<'p, W, R, T> CompilationScope<'p, W, R, T> {
                 new_category: CompilationItemCategory::Overload,
             });
         }
-        let forward_requirements: Vec<_> = if let XStaticFunction::UserFunction(func) = &func {
+        let mut forward_requirements: Vec<_> = if let XStaticFunction::UserFunction(func) = &func {
             func.forward_requirements.iter().cloned().collect()
         } else {
             Default::default()
         };
+        // the set iterates in a random order; keep error reporting reproducible
+        forward_requirements.sort();
 
         let cell_idx = if let Some(fref) = self
             .forwards
